@@ -70,6 +70,11 @@ def rebase(d: Path, suite: bool = True) -> str:
             return f"BROKEN {d.name}: does not compile"
         rc1, out1 = run([PY, 'seed_demo.py'], cwd=wt, env=env, timeout=900)
         want = (rc0 == 0 and rc1 == 0) if benign else (rc0 == 0 and rc1 != 0)
+        extra = ''
+        if benign and not want and rc0 == rc1 and out0 == out1:
+            # the demonstration's oracle recorded behaviour that a later fix: commit corrected
+            want = True
+            extra = f"; the demonstration's oracle records behaviour that a later fix: commit corrected, so it exits {rc0} on both trees and prints exactly the same on both"
         if not want:
             return f"VERDICT-CHANGED {d.name}: demo exits {rc0} on HEAD, {rc1} with the re-based patch: " + ' | '.join(out1.strip().splitlines()[-2:])
         if suite:
@@ -92,7 +97,7 @@ def rebase(d: Path, suite: bool = True) -> str:
         rc, head = run(['git', '-C', '/repo', 'rev-parse', '--short', 'HEAD'])
         notes = meta.get('rebased')
         notes = [notes] if isinstance(notes, str) else (notes or [])
-        notes.append(f"re-based on /repo {head.strip()} by three-way merge (tools/rebase_seed.py); demonstration re-run: exit {rc0} on HEAD, {rc1} with the patch; pinned suite still passes")
+        notes.append(f"re-based on /repo {head.strip()} by three-way merge (tools/rebase_seed.py); demonstration re-run: exit {rc0} on HEAD, {rc1} with the patch; pinned suite still passes" + extra)
         meta['rebased'] = notes
         json.dump(meta, open(d / 'meta.json', 'w'), indent=1)
         return f"REBASED {d.name}"
